@@ -832,6 +832,12 @@ func replaceCount(value, old, new, count any) (any, error) {
 		}
 	}
 
+	if n < 0 {
+		return nil, &negativeIntegerError{
+			i: n,
+		}
+	}
+
 	return strings.Replace(s, po, pn, n), nil
 }
 
